@@ -285,6 +285,9 @@ def run(rep: Report, tier: str) -> None:
                        "setdiff / symdiff over an operand given as an empty DataFrame work on an empty table")
     from sa.checks.c19 import every_dataframe_becomes_a_table as _edt
     _edt(P, rep, "R05.11")
+    # ---- R05.12: a union used as an operand selects its operands' own columns ----
+    rep.rule("R05.12", "union as the operand of a clause (statement output != union structure): the UNION branches project exactly the components of the operands")
+    _union_as_operand(P, rep, "R05.12")
     rep.assumptions = ["operator arity as written in Vtl.g4", "UNION ALL matches columns by position (SQL)"]
 
 
@@ -458,3 +461,41 @@ def _set_validate_by_name(P: Program, rep: Report) -> None:
             rep.add(transp.fnd("R05.8", f"by-name/{cls}", f, f.node.lineno,
                                f"{cls.lower()}(DS_1[A, B, M, S], DS_2[B, A, S, M]) - the same components declared in another order: semantic analysis gives {verdict[1]}; "
                                f"expected acceptance with {want} (each component typed and made nullable from the components of the same NAME in the operands)"))
+
+
+def _union_as_operand(P: Program, rep: Report, rule: str) -> None:
+    """_visit_set_operation evaluated for union(D1, D2) used as the OPERAND of a clause that renames / drops / adds components (the statement's
+    output structure then differs from the union's own): every column the generated SQL selects from an operand is a component of the
+    operands, and all their components are selected."""
+    import re as _re
+    from sa import structmodel as sm
+    from sa.e6 import Interp, Raised, Unmodelled
+    f = P.func(f"{sm.TRQ}._visit_set_operation")
+    M = sm.Model(P)
+    REG = registryx.extract(P)
+    ds = M.ds("D1", ["A", "B"], ["M", "N"])
+    n = 0
+    for label, out in (("renamed-measure", M.ds("R", ["A", "B"], ["M_X", "N"])), ("dropped-measure", M.ds("R", ["A", "B"], ["N"])), ("added-measure", M.ds("R", ["A", "B"], ["M", "N", "K"])),
+                       ("whole-statement", M.ds("R", ["B", "A"], ["N", "M"]))):
+        for op in ("union",):
+            node = sm.MNode("MulOp", op=op, children=[sm.MNode("VarID", value="D1"), sm.MNode("VarID", value="D2")])
+            ext = {"self.visit": lambda c: f'SELECT * FROM "{c.value}"', "self._get_dataset_structure": lambda c: ds, "self._get_output_dataset": lambda out=out: out,
+                   "quote_name": lambda x: f'"{x}"', "registry.sql": lambda o, *a: registryx.registry_sql(REG, o, *a), "hasattr": lambda o, x: hasattr(o, x),
+                   "self._join_on_clause": lambda ids, a, b: " AND ".join(f'{a}."{i}" = {b}."{i}"' for i in ids)}
+            try:
+                txt = " ".join(str(Interp(P, externals=ext).call(f, {"self": sm.MTranspiler(), "node": node, "op": op})).split())
+            except (Unmodelled, Raised) as e:
+                raise AnalysisError(f"{rule}: _visit_set_operation outside the evaluator's language: {e}")
+            n += 1
+            # the projections applied directly to an operand: SELECT <cols> FROM (SELECT * FROM "Dk") ...
+            projs = _re.findall(r'SELECT ((?:"[^"]+"(?:, )?)+) FROM \(SELECT \* FROM "D[12]"\)', txt)
+            rep.instance(rule, f"union-as-operand/{label}", nontrivial=True, sample={"statement_output": sorted(out.components), "operand_projections": projs[:2]})
+            for pr in projs:
+                cols = _re.findall(r'"([^"]+)"', pr)
+                if set(cols) != set(ds.components):
+                    rep.add(transp.fnd(rule, f"union-as-operand/{label}", f, f.node.lineno,
+                                       f"union(D1, D2) inside a statement whose result has the components {sorted(out.components)}: the branches select {cols} from operands that have "
+                                       f"{sorted(ds.components)} - a column of the statement's output that no operand has (after a rename / calc) ends in a raw BinderException, a dropped one "
+                                       f"is lost before the clause that uses it"))
+                    break
+    rep.floor(f"{rule} union-as-operand shapes", n, 4)
